@@ -261,6 +261,8 @@ class HistogramDensityMethod(BatchDetector):
         X = pd.DataFrame(
             X, columns=self._input_cols
         )  # TODO: subsequent operations expect dataframes, not numpy arrays
+        # column names may have been established since the reference was stored
+        self.reference.columns = X.columns
 
         super().update(X, None, None)
         test_n = X.shape[0]
